@@ -611,3 +611,101 @@ Qed.
 
 Lemma cp_simplify_good orders c : Good c -> Forall (fun o => NoDup o) orders -> Good (cp_simplify orders c).
 Proof. intros G F. unfold cp_simplify. apply simplify_loop_good; [now apply simplify_batch_good|assumption]. Qed.
+
+(* ------------------------------------------------------------------ *)
+(* optimize_remaining_by_size                                           *)
+Lemma heap_min_in : forall l x, In (heap_min x l) (x :: l).
+Proof.
+  induction l as [|y l IH]; intros x; cbn [heap_min]; [now left|].
+  destruct (IH (if zn_lt y x then y else x)) as [H|H]; [|right; now right].
+  rewrite <- H. destruct (zn_lt y x); [right; now left|now left].
+Qed.
+
+Lemma heap_remove_perm a : forall h, In a h -> Permutation (a :: heap_remove a h) h.
+Proof.
+  induction h as [|y h IH]; intros Hin; [destruct Hin|]. cbn [heap_remove].
+  destruct ((fst y =? fst a)%Z && Nat.eqb (snd y) (snd a)) eqn:E.
+  - apply andb_prop in E as [E1 E2]. apply Z.eqb_eq in E1. apply Nat.eqb_eq in E2.
+    assert (y = a) by (destruct y, a; cbn in *; congruence). subst. apply Permutation_refl.
+  - destruct Hin as [->|Hin].
+    + rewrite Z.eqb_refl, Nat.eqb_refl in E. discriminate.
+    + eapply perm_trans; [apply perm_swap|]. apply perm_skip. now apply IH.
+Qed.
+
+Lemma filter_perm {B} (f : B -> bool) l l' : Permutation l l' -> Permutation (filter f l) (filter f l').
+Proof.
+  induction 1; cbn; try constructor.
+  - destruct (f x); [now apply perm_skip|assumption].
+  - destruct (f x), (f y); try apply Permutation_refl. apply perm_swap.
+  - eapply perm_trans; eassumption.
+Qed.
+
+Lemma remove_two_perm i j l m : NoDup l -> Permutation l (i :: j :: m) -> Permutation (remove_all [i; j] l) m.
+Proof.
+  intros ND P. unfold remove_all. eapply perm_trans; [apply filter_perm; exact P|].
+  assert (ND2 : NoDup (i :: j :: m)) by (eapply Permutation_NoDup; eassumption).
+  inversion ND2 as [|? ? Hi ND3]; subst. inversion ND3 as [|? ? Hj ND4]; subst.
+  cbn [filter].
+  replace (memb i [i; j]) with true by (symmetry; apply memb_In; now left).
+  replace (memb j [i; j]) with true by (symmetry; apply memb_In; right; now left). cbn [negb].
+  rewrite filter_all_true; [apply Permutation_refl|].
+  intros x Hx. apply negb_true_iff, memb_false. intros [->|[->|[]]]; [apply Hi; now right|contradiction].
+Qed.
+
+Lemma remaining_loop_good : forall fuel h c, Good c -> Permutation (map snd h) (keys c) ->
+  1 <= length h -> length h <= S fuel ->
+  Good (remaining_loop fuel h c) /\ length (cp_nodes (remaining_loop fuel h c)) = 1.
+Proof.
+  induction fuel as [|f IH]; intros h c G P L1 L2.
+  - cbn [remaining_loop]. split; [assumption|]. apply Permutation_length in P. rewrite map_length in P.
+    unfold keys in P. rewrite map_length in P. lia.
+  - cbn [remaining_loop]. destruct h as [|x0 [|x1 rest]].
+    + cbn in L1. lia.
+    + split; [assumption|]. apply Permutation_length in P. unfold keys in P. rewrite !map_length in P. cbn in P. lia.
+    + set (h := x0 :: x1 :: rest) in *.
+      set (a := heap_min x0 (x1 :: rest)).
+      assert (Ha : In a h) by apply heap_min_in.
+      pose proof (heap_remove_perm a h Ha) as Pa.
+      destruct (heap_remove a h) as [|y0 rest1] eqn:Eh1.
+      { apply Permutation_length in Pa. cbn in Pa. lia. }
+      set (b := heap_min y0 rest1).
+      assert (Hb : In b (y0 :: rest1)) by apply heap_min_in.
+      pose proof (heap_remove_perm b (y0 :: rest1) Hb) as Pb.
+      set (h2 := heap_remove b (y0 :: rest1)) in *.
+      assert (Pk : Permutation (keys c) (snd a :: snd b :: map snd h2)).
+      { eapply perm_trans; [apply Permutation_sym; exact P|].
+        eapply perm_trans; [apply Permutation_map, Permutation_sym; exact Pa|]. cbn [map]. apply perm_skip.
+        apply (Permutation_map snd) in Pb. cbn [map] in Pb. now apply Permutation_sym. }
+      assert (NDk : NoDup (snd a :: snd b :: map snd h2)) by (eapply Permutation_NoDup; [exact Pk|apply G]).
+      assert (Hia : In (snd a) (keys c)) by (eapply Permutation_in; [apply Permutation_sym; exact Pk|now left]).
+      assert (Hib : In (snd b) (keys c)) by (eapply Permutation_in; [apply Permutation_sym; exact Pk|right; now left]).
+      assert (Hab : snd a <> snd b) by (inversion NDk as [|? ? Hn _]; subst; intros Hc; apply Hn; rewrite Hc; now left).
+      destruct (contract_nodes_good (snd a) (snd b) None c G Hia Hib Hab) as (G1 & Hk & Hs1 & Hr & _ & (lgk & Gk)).
+      destruct (contract_nodes (snd a) (snd b) None c) as [c1 k] eqn:E. cbn [fst snd] in G1, Hk, Hs1, Hr, Gk. subst k.
+      apply IH; [exact G1| | |].
+      * cbn [map snd]. rewrite Hk. eapply perm_trans; [|apply Permutation_app_comm]. cbn [app]. apply perm_skip.
+        apply Permutation_sym, remove_two_perm; [apply G|exact Pk].
+      * cbn. lia.
+      * apply Permutation_length in Pa, Pb. cbn [length] in *. fold h2 in Pb. lia.
+Qed.
+
+Lemma cp_remaining_good c : Good c -> Good (cp_remaining c) /\ length (cp_nodes (cp_remaining c)) = 1.
+Proof.
+  intros G. unfold cp_remaining. destruct (cp_nodes c) as [|[i li] [|[j lj] [|n3 rest]]] eqn:En.
+  - exfalso. destruct G as (_ & _ & _ & Hne). apply Hne. unfold keys. now rewrite En.
+  - split; [assumption|]. now rewrite En.
+  - assert (Hk0 : keys c = [i; j]) by (unfold keys; now rewrite En).
+    assert (Hij : i <> j).
+    { destruct G as (_ & [ND _] & _). rewrite Hk0 in ND. inversion ND as [|? ? Hn _]; subst. intros ->. apply Hn. now left. }
+    destruct (contract_nodes_good i j None c G) as (G1 & Hk & _); [rewrite Hk0; now left|rewrite Hk0; right; now left|assumption|].
+    split; [exact G1|].
+    assert (HL : length (keys (fst (contract_nodes i j None c))) = 1).
+    { rewrite Hk, Hk0. unfold remove_all. cbn [filter].
+      replace (memb i [i; j]) with true by (symmetry; apply memb_In; now left).
+      replace (memb j [i; j]) with true by (symmetry; apply memb_In; right; now left). reflexivity. }
+    unfold keys in HL. now rewrite map_length in HL.
+  - rewrite <- En. apply remaining_loop_good; [assumption| | |].
+    + rewrite map_map. cbn [snd]. apply Permutation_refl.
+    + rewrite map_length, En. cbn. lia.
+    + rewrite map_length. lia.
+Qed.
